@@ -28,8 +28,43 @@ def time_model_selftest():
     ok = order.index("timer") < order.index("r3") and "r2" in order
     return ok, order
 
+DETERMINISM_PROBE = r"""
+import sys, json, hashlib
+sys.path.insert(0, %r)
+from checks import common, monsets
+from harness import corpus, explorer, fingerprint as F
+fps = []
+orig = F.fingerprint
+def fp(w):
+    v = orig(w); fps.append(json.dumps([list(l) for l in w.trace]) + v); return v
+explorer.fingerprint = fp
+tot = []
+for name in ("by+parallel-next", "by+task-retry-then-ok"):
+    sc = [s for s in corpus.bystander_family("quick") if s["name"] == name][0]
+    common.annotate(sc)
+    r = explorer.explore(sc, lambda: monsets.full(sc), bound=None, max_states=30000, only=["M-life"])
+    tot.append([r.states, r.transitions, r.executions, sorted(r.outcomes)])
+print(hashlib.sha1((json.dumps(tot) + "".join(sorted(fps))).encode()).hexdigest(), tot[0][:3], tot[1][:3])
+"""
+
+def determinism_selftest():
+    """Two fresh interpreters explore the same two scenarios (a Wait canceller, a retry timer, heart-beats, a bystander): the set of
+    (event trace, state fingerprint) pairs, the state / transition counts and the outcomes must be identical - nothing the
+    harness does not own (addresses, hash seeds, file names, garbage collection) may reach a fingerprint or an enabled set."""
+    import subprocess
+    env = dict(os.environ, PYTHONHASHSEED="0", LOG_LEVEL="CRITICAL")
+    outs = []
+    for i in range(2):
+        env["PYTHONHASHSEED"] = "0"
+        p = subprocess.run([sys.executable, "-c", DETERMINISM_PROBE % VERIF], env=env, stdout=subprocess.PIPE, stderr=subprocess.PIPE, cwd=VERIF)
+        outs.append(p.stdout.decode().strip() or p.stderr.decode()[-300:])
+    return outs[0] == outs[1] and len(outs[0].split()) > 1, outs
+
 def main():
     ok = compileall.compile_dir(VERIF, quiet=1, maxlevels=6)
+    d_ok, outs = determinism_selftest()
+    print("determinism selftest:", "ok" if d_ok else "FAILED", outs[0][:120] if d_ok else outs)
+    ok = ok and d_ok
     t_ok, order = time_model_selftest()
     print("time-model selftest:", "ok" if t_ok else "FAILED", order)
     rc = 0 if (ok and t_ok) else 1
